@@ -1,0 +1,92 @@
+//go:build verif
+
+package stream
+
+// Contracts for the stream helper writers (properties C47, C10, C22, C44).
+// Comment-only file: compiled only under the "verif" build tag, contains no
+// code. The "//@" lines are read by /verif/govc. Ghost maps wcalls, accepted,
+// hashed, closed, closeErr are declared with the trusted io contracts.
+
+//@ ghost flushed map[int]bool
+//@ ghost flushErr map[int]int
+//@ ghost fcalls map[int]int
+
+//@ iface Flusher.Flush
+//@   params self
+//@   modifies flushed[self], flushErr[self], fcalls[self]
+//@   ensures flushed[self] && flushErr[self] == result && fcalls[self] == old(fcalls[self]) + 1
+
+// ---------------------------------------------------------------- cutoff
+
+//@ func (*cutoffWriter).Write
+//@   requires w != nil
+//@   ensures w.writer == old(w.writer)
+//@   ensures[account] accepted[w.writer] == old(accepted[w.writer]) + old(w.cutoff) - w.cutoff
+//@   ensures[bound] w.cutoff <= old(w.cutoff)
+//@   ensures[zero] old(w.cutoff) == 0 ==> result0 == len(buffer) && result1 == nil && wcalls[w.writer] == old(wcalls[w.writer])
+//@   ensures[one] wcalls[w.writer] <= old(wcalls[w.writer]) + 1
+//@   ensures[okall] result1 == nil ==> result0 == len(buffer)
+//@   ensures[fail] result1 != nil ==> result0 == accepted[w.writer] - old(accepted[w.writer])
+//@   at call io.Writer.Write assert[prefix] base(arg1) == base(buffer) && off(arg1) == off(buffer) && len(arg1) == min(len(buffer), old(w.cutoff))
+//@   modifies w.cutoff, wcalls[w.writer], accepted[w.writer]
+
+// ---------------------------------------------------------------- hashing
+
+//@ func (*hashedWriter).Write
+//@   requires w != nil
+//@   ensures[same] result0 == accepted[w.writer] - old(accepted[w.writer])
+//@   ensures[hashed] hashed[w.hasher] == old(hashed[w.hasher]) + result0
+//@   ensures[once] wcalls[w.writer] == old(wcalls[w.writer]) + 1
+//@   at call io.Writer.Write#1 assert[whole] arg1 == data
+//@   at call hash.Hash.Write#1 assert[digest] base(arg1) == base(data) && off(arg1) == off(data) && len(arg1) == n
+//@   modifies wcalls[w.writer], accepted[w.writer], hashed[w.hasher]
+
+// ---------------------------------------------------------------- preemption
+
+//@ func (*preemptableWriter).Write
+//@   requires w != nil && w.writeCount <= w.checkInterval
+//@   ensures w.writeCount <= w.checkInterval && w.checkInterval == old(w.checkInterval) && w.writer == old(w.writer)
+//@   ensures[preempt] wcalls[w.writer] == old(wcalls[w.writer]) ==> result0 == 0 && result1 == ErrWritePreempted && old(w.writeCount) == old(w.checkInterval)
+//@   ensures[count] wcalls[w.writer] != old(wcalls[w.writer]) ==> w.writeCount == (old(w.writeCount) == old(w.checkInterval) ? 0 : old(w.writeCount) + 1)
+//@   ensures[one] wcalls[w.writer] <= old(wcalls[w.writer]) + 1
+//@   at call io.Writer.Write assert[whole] arg1 == data
+//@   modifies w.writeCount, wcalls[w.writer], accepted[w.writer]
+
+// ---------------------------------------------------------------- valve
+
+//@ func (*ValveWriter).Write
+//@   requires w != nil
+//@   ensures w.writer == old(w.writer)
+//@   ensures[shut] old(w.writer) == nil ==> result0 == len(buffer) && result1 == nil
+//@   ensures[open] old(w.writer) != nil ==> wcalls[w.writer] == old(wcalls[w.writer]) + 1
+//@   at call io.Writer.Write assert[whole] arg1 == buffer && old(w.writer) != nil
+//@   modifies wcalls[w.writer], accepted[w.writer]
+
+//@ func (*ValveWriter).Shut
+//@   requires w != nil
+//@   ensures w.writer == nil
+//@   modifies w.writer
+
+// ---------------------------------------------------------------- multi-closer
+
+//@ func (*multiCloser).Close
+//@   requires c != nil
+//@   requires[distinct] forall i in 0..len(c.closers) :: forall j in 0..len(c.closers) :: i != j ==> c.closers[i] != c.closers[j]
+//@   ensures[all] forall i in 0..len(c.closers) :: closed[c.closers[i]]
+//@   ensures[firstnil] result == nil ==> forall i in 0..len(c.closers) :: closeErr[c.closers[i]] == nil
+//@   ensures[first] result != nil ==> exists i in 0..len(c.closers) :: closeErr[c.closers[i]] == result && forall j in 0..i :: closeErr[c.closers[j]] == nil
+//@   loop 1 invariant -1 <= rangeindex && rangeindex < len(c.closers) || (rangeindex == -1 && len(c.closers) == 0)
+//@   loop 1 invariant[all] forall i in 0..rangeindex+1 :: closed[c.closers[i]]
+//@   loop 1 invariant[firstnil] firstErr == nil ==> forall i in 0..rangeindex+1 :: closeErr[c.closers[i]] == nil
+//@   loop 1 invariant[first] firstErr != nil ==> exists i in 0..rangeindex+1 :: closeErr[c.closers[i]] == firstErr && forall j in 0..i :: closeErr[c.closers[j]] == nil
+
+// ---------------------------------------------------------------- multi-flusher
+
+//@ func (*multiFlusher).Flush
+//@   requires f != nil
+//@   requires[distinct] forall i in 0..len(f.flushers) :: forall j in 0..len(f.flushers) :: i != j ==> f.flushers[i] != f.flushers[j]
+//@   ensures[allok] result == nil ==> forall i in 0..len(f.flushers) :: flushed[f.flushers[i]] && flushErr[f.flushers[i]] == nil
+//@   ensures[first] result != nil ==> exists i in 0..len(f.flushers) :: flushErr[f.flushers[i]] == result && (forall j in 0..i :: flushErr[f.flushers[j]] == nil && fcalls[f.flushers[j]] == old(fcalls[f.flushers[j]]) + 1) && (forall k in i+1..len(f.flushers) :: fcalls[f.flushers[k]] == old(fcalls[f.flushers[k]]))
+//@   loop 1 invariant -1 <= rangeindex && rangeindex < len(f.flushers) || (rangeindex == -1 && len(f.flushers) == 0)
+//@   loop 1 invariant[done] forall i in 0..rangeindex+1 :: flushed[f.flushers[i]] && flushErr[f.flushers[i]] == nil && fcalls[f.flushers[i]] == old(fcalls[f.flushers[i]]) + 1
+//@   loop 1 invariant[rest] forall k in rangeindex+1..len(f.flushers) :: fcalls[f.flushers[k]] == old(fcalls[f.flushers[k]])
